@@ -79,7 +79,13 @@ def check(repo: Repo, rep: Report) -> None:
         rep.ob("T1-timeout", m, f"{mname}: returned composite cancels the timer", ok, "disposing the returned disposable does not cancel the timer: the action runs after cancellation")
     m = repo.fn(TO, "TimeoutScheduler.schedule_relative")
     imm = [s for s in sites(m) if isinstance(s.node, ast.Return) and isinstance(s.node.value, ast.Call) and dotted(s.node.value.func) == "self.schedule"]
-    ok = bool(imm) and any(isinstance(e, ast.Compare) and p and "<=" in u(e) for e, p in imm[0].ctx.guards)
+    secs = [s for s in sites(m) if isinstance(s.node, ast.Assign) and u(s.node.value) == f"self.to_seconds({m.params[1]})"]
+    sv = u(secs[0].node.targets[0]) if secs else "seconds"
+    ok = False
+    for e, p in (imm[0].ctx.guards if imm else ()):
+        r = compare_norm(e, lambda x: u(x) == sv)
+        if p and r and r[0] in ("<=", "<") and u(r[1]) in ("0.0", "0"):
+            ok = True
     rep.ob("T1-timeout", m, "non-positive delay -> schedule()", ok, "non-positive delays are not run as immediate actions")
     # delegation
     for rel, cls in ((TO, "TimeoutScheduler"), (NT, "NewThreadScheduler")):
@@ -111,7 +117,9 @@ def check(repo: Repo, rep: Report) -> None:
     rep.ob("D1-delegation", st, "pool thread submits its target", ok, "the pool 'thread' does not run the loop target on the executor")
     # event loop
     sa = repo.fn(EL, "EventLoopScheduler.schedule_absolute")
-    ok = any(isinstance(s.node, ast.Return) and u(s.node.value) == "Disposable(si.cancel)" for s in sites(sa))
+    si_names = {u(s.node.target if isinstance(s.node, ast.AnnAssign) else s.node.targets[0]) for s in sites(sa)
+                if isinstance(s.node, (ast.Assign, ast.AnnAssign)) and isinstance(s.node.value, ast.Call) and call_name(s.node.value) == "ScheduledItem"}
+    ok = any(isinstance(s.node, ast.Return) and any(u(s.node.value) == f"Disposable({n_}.cancel)" for n_ in si_names) for s in sites(sa))
     rep.ob("E1-eventloop-guards", sa, "returns Disposable(si.cancel)", ok, "the returned disposable does not cancel the scheduled item")
     sr = repo.fn(EL, "EventLoopScheduler.schedule_relative")
     ok = any(isinstance(s.node, ast.Return) and isinstance(s.node.value, ast.Call) and dotted(s.node.value.func) == "self.schedule_absolute"
